@@ -7,6 +7,7 @@ import (
 	"fmt"
 	"io"
 	"log"
+	"strings"
 
 	"verifharness/hxlib"
 	. "verifharness/hxtimers"
@@ -140,6 +141,11 @@ func main() {
 		var c Case
 		r.LoadReplay(&c)
 		switch {
+		case strings.HasPrefix(c.Sched, "live-re-"):
+			r.Case()
+			if what := LiveReentrant(c.Sched[len("live-re-"):]); what != "" {
+				r.Fail("live-reentrant:"+c.Sched[len("live-re-"):], what, c)
+			}
 		case c.Search != nil:
 			EmitSearch(r, c, true)
 		case c.Live:
@@ -147,7 +153,7 @@ func main() {
 		case c.NextID > 0:
 			searchEmitPlain(c, "id-wrap-replay", 1)
 		default:
-			emit(c, ticksOf(c) <= 1<<23)
+			emit(c, ticksOf(c) <= 1<<23 && modelable(c))
 		}
 		r.Sample(c)
 		return
@@ -249,6 +255,8 @@ func main() {
 		}
 		run(c)
 	}
+	// 4. what the generators above do not vary: Runnable objects, constructors, extreme arguments, id counter, re-entrancy
+	diversityLegs(positions, run)
 	r.Note("model-compared wheel ticks: %d (budget %d)", modelTicks, modelBudget)
 	if r.Thorough() {
 		sweep(positions)
